@@ -49,7 +49,9 @@ MANIFEST = {
 PKG_V1 = {"pkg/__init__.py": '"""Pkg v1."""\nfrom pkg.a import f\nVALUE = 1\n', "pkg/a.py": 'def f(x, y=1):\n    """Doc f."""\n    return x\ndef gone(): ...\n'}  # (gone: removed in v2, its breakage is located in the OLD tree)
 PKG_V2 = {"pkg/__init__.py": '"""Pkg v2."""\nfrom pkg.a import f\nVALUE = 2\n', "pkg/a.py": 'def f(x):\n    """Doc f."""\n    return x\n'}
 WRITER = "import os\nopen(os.path.join(os.path.dirname(__file__), 'written_at_import.txt'), 'w').close()\n"
-HISTORIES = ["plain", "slash-branch", "detached", "user-worktree", "dirty", "syntax-error-in-old", "absent-in-old", "writes-at-import", "stash", "user-griffe-branches", "user-worktrees-named-like-refs"]
+HISTORIES = ["plain", "slash-branch", "detached", "user-worktree", "dirty", "syntax-error-in-old", "absent-in-old", "writes-at-import", "stash", "user-griffe-branches", "user-worktrees-named-like-refs",
+             # the package directory is a symbolic link committed in the repository (pkg -> packages/pkg-impl)
+             "symlinked-package"]
 OPS = ["load-static", "load-inspect", "load-extension", "load-unknown-ref", "load-slash-branch", "check", "check-base-ref", "load-relative-repo-chdir", "diff-explain-cwd-tmpdir",
        # three loads in a row with one loader-less API: the old tag, the branch, the old tag again (what the first load left behind must not show in the third)
        "load-v1-main-v1"]
@@ -71,6 +73,9 @@ def build_repo(history, root):
     if history == "writes-at-import":
         v1["pkg/writer.py"] = WRITER
         v1["pkg/__init__.py"] += "from pkg import writer\n"
+    if history == "symlinked-package":
+        os.makedirs(os.path.join(repo, "packages", "pkg-impl"))
+        os.symlink(os.path.join("packages", "pkg-impl"), os.path.join(repo, "pkg"))  # (what is written to pkg/ below lands behind the link)
     sandbox.write_tree(repo, v1)
     _git(["add", "-A"], repo)
     _git(["commit", "-q", "-m", "one"], repo)
@@ -331,6 +336,8 @@ def operate(griffe, op, repo, inj):
 def applicable(history, op):
     if history in ("user-griffe-branches", "user-worktrees-named-like-refs"):
         return op in ("load-static", "load-slash-branch", "check", "check-base-ref")
+    if history == "symlinked-package":
+        return op in ("load-static", "load-inspect", "check", "load-v1-main-v1")
     if op == "check-base-ref":
         return history in ("plain", "dirty", "user-worktree")
     if op == "load-slash-branch":
